@@ -83,3 +83,22 @@ package record
 //@ func (*ColumnSortHelper).Sort
 //@   call sort.Stable
 //@     requires true
+
+// ================================================================ C06: a field value lands on the row it was written with
+//@ prop C06
+// A field that appears for the first time in a later row of a series gets a new column that is first padded
+// with exactly as many nulls as the record had rows BEFORE this row; columns that exist but are missing in
+// this row are padded by one.
+//@ func AppendFieldsToRecordSlow
+//@   requires rec != nil
+//@   ghost k int = 0
+//@   ghost rn0 int = 0
+//@   call (*Record).RowNums
+//@     set rn0 = (k == 0 ? ret0 : rn0)
+//@     set k = k + 1
+//@     frame nothing
+//@   call .PadColVal on rec.ColVals[appendColIdx]
+//@     requires [new_column_pad] k >= 1 && arg1 == rn0
+//@   call .PadColVal on rec.ColVals[recSchemaIdx]
+//@     requires [missing_field_pad] arg1 == 1
+
